@@ -22,8 +22,9 @@
 (*              slots of layout "A" (the length of the packet of THIS      *)
 (*              execution, whatever earlier executions were given)         *)
 (*   "P9"       fixed-metadata VM: reads the slot of layout "A"            *)
-(*   "PX"       refused by default, custom and rejectAll (never offered    *)
-(*              under acceptAll: it is not safe to run)                    *)
+(*   "PX" "PY"  refused by default, custom and rejectAll (never offered    *)
+(*              under acceptAll: they are not safe to run); PY is a local  *)
+(*              call to far outside the program                            *)
 (* Verifiers: "default", "acceptAll", "rejectAll", "custom" (accepts a     *)
 (* program iff its first instruction is mov64 rX, imm).                    *)
 (* Layouts (fixed-metadata VM only): "A" (0x40,0x50)  "C" (0x48,0x50);     *)
@@ -39,7 +40,7 @@ CONSTANTS Kind,        \* "raw" | "nodata" | "mbuff" | "fixed"
 
 \* (programs whose run-time errors would make compiled code fault are only offered to the kinds on
 \* which they are error-free: the compiled engines' lack of run-time checks is documented)
-Progs     == {"P1", "P2", "P3", "P4", "P5", "P6", "PX"} \cup (IF Kind = "nodata" THEN {} ELSE {"P7"})
+Progs     == {"P1", "P2", "P3", "P4", "P5", "P6", "PX", "PY"} \cup (IF Kind = "nodata" THEN {} ELSE {"P7"})
                                                    \cup (IF Kind = "fixed" THEN {"P8", "P9"} ELSE {})
 \* "default" is only the initial verifier: the crate does not export it, so it cannot be re-installed
 Verifiers == {"acceptAll", "rejectAll", "custom"}
@@ -51,7 +52,7 @@ PLen(k)   == CASE k = "pa" -> "16" [] k = "pb" -> "24" [] k = "pc" -> "8" [] k =
 None      == "none"
 
 Accepts(v, p) ==
-  CASE v = "acceptAll" -> p # "PX"
+  CASE v = "acceptAll" -> p \notin {"PX", "PY"}
     [] v = "rejectAll" -> FALSE
     [] v = "default"   -> p \in {"P1", "P2", "P4", "P5", "P6", "P7", "P8", "P9"}
     [] v = "custom"    -> p \in {"P1", "P2", "P4", "P6"}
@@ -111,7 +112,7 @@ NewWith(p) ==
 \* On success the artefacts of the previous program may be dropped or kept (mechanism left
 \* open) - what is NOT open is that they can never run in place of the new program (ExecJit/ExecCl).
 SetProgram(p, lay) ==
-  /\ ~(verifier = "acceptAll" /\ p = "PX")
+  /\ ~(verifier = "acceptAll" /\ p \in {"PX", "PY"})
   /\ IF Accepts(verifier, p)
      THEN /\ loaded' = p
           /\ layout' = lay
@@ -124,7 +125,7 @@ SetProgram(p, lay) ==
 
 \* set_verifier: the new verifier is run on the loaded program first; failure = no change
 SetVerifier(v) ==
-  /\ ~(v = "acceptAll" /\ loaded = "PX")
+  /\ ~(v = "acceptAll" /\ loaded \in {"PX", "PY"})
   /\ IF loaded = None \/ Accepts(v, loaded)
      THEN /\ verifier' = v
           /\ last' = Obs("set_verifier", v, "ok")
